@@ -38,6 +38,10 @@ def reset_globals():
     from serif.alias_tracker import _ALIAS_TRACKER
     _ALIAS_TRACKER._registry.clear()
     serif.set_repr_rows(None)
+    # fresh-only virtual identities for storage tuples: no address recycling inside a check
+    # (the recycling hazard itself is owned and enumerated by C15)
+    from . import valloc
+    valloc.install("fresh")
 
 
 # --------------------------------------------------------------------------------------
